@@ -48,6 +48,9 @@ pub struct TxPool {
     pub(crate) conflicts_cache: lru::LruCache<ProposalShortId, TransactionView>,
     // conflicted transaction outputs cache, input -> tx_short_id
     pub(crate) conflicts_outputs_cache: lru::LruCache<OutPoint, ProposalShortId>,
+    /// verification hook: reorganisation notifications processed so far
+    #[cfg(ckb_verif)]
+    pub(crate) verif_reorg_log: Vec<crate::verif::VerifReorg>,
 }
 
 impl TxPool {
@@ -64,6 +67,8 @@ impl TxPool {
             expiry,
             conflicts_cache: LruCache::new(CONFLICTES_CACHE_SIZE),
             conflicts_outputs_cache: lru::LruCache::new(CONFLICTES_INPUTS_CACHE_SIZE),
+            #[cfg(ckb_verif)]
+            verif_reorg_log: Vec::new(),
         }
     }
 
